@@ -36,11 +36,28 @@ def encoded_functions():
             ResponseFuture._set_result, HostConnection.borrow_connection, HostConnection.return_connection]
 
 
-def h_history(V, window='low', steps=5, nreq=3, retries=False):
+def h_history(V, window='low', steps=5, nreq=3, retries=False, race=False):
     lo, hi, pv = WINDOWS[window]
     world = RFWorld(V, n_hosts=1, protocol_version=pv)
     pool = world.pools[world.hosts[0]]
     conn = pool._connection
+    if race:
+        # one pre-emption: while a thread is at a lock acquire/release of driver code (holding no lock), the event loop
+        # thread delivers a pending response or a client timeout fires
+        from harness import kit
+
+        def other(*a):
+            ev = [('respond',) + p for p in world.pending()] + [('timer', t) for t in world.timers()]
+            e = ev[V.choice('pre_ev', len(ev))]
+            V.tag('preempted_with', e[0])
+            if e[0] == 'respond':
+                world.respond(e[1], e[2], world.rows(e[3]))
+            else:
+                e[1].fire()
+        pre = kit.Preempter(V, None, other, only_unlocked=True, enabled=lambda: bool(world.pending() or world.timers()))
+        conn.lock = kit.SchedLock('connection.lock', pre)
+        pool._lock = kit.SchedLock('pool._lock', pre)
+        pool._stream_available_condition = kit.VirtualCondition(pool._lock)
     proto_max = 127 if pv < 3 else 32767
     highest = V.int('highest', lo, hi)
     nfree = V.choice('nfree', 3)
@@ -137,4 +154,8 @@ def jobs(tier):
         for first in range(3):
             js.append(Job('retry-%s-f%d' % (w, first), 'h_history', dict(window=w, steps=steps + 1, nreq=2, retries=True),
                           dict(arith='int', pin={'nfree': first}, max_seconds=900 if tier == 'thorough' else 200)))
+    # one pre-emption by the event-loop thread at a lock acquire/release (no lock held)
+    for first in range(3):
+        js.append(Job('race-low-f%d' % first, 'h_history', dict(window='low', steps=4 if tier == 'quick' else 5, nreq=2, retries=True, race=True),
+                      dict(arith='int', pin={'nfree': first}, max_seconds=900 if tier == 'thorough' else 200, max_paths=300000)))
     return js
